@@ -27,6 +27,9 @@ Inductive field :=
 (** [ln_id_ok]: the entity's id is the one it was created with (false only after a re-identification) *)
 Record line := mkLine { ln_oid : nat; ln_kind : kind; ln_parent : option nat; ln_id_ok : bool; ln_fields : list field }.
 
+(** an empty extent / unit list reads back like an absent one *)
+Definition norm_empty {A} (o : option (list A)) : option (list A) := match o with Some [] => None | x => x end.
+
 Definition kids (s : db) (o : nat) (k : kind) : list nat := map e_oid (children s (Some o) k).
 
 Definition fields_of (s : db) (e : ent) : list field :=
@@ -43,9 +46,9 @@ Definition fields_of (s : db) (e : ent) : list field :=
   | KProperty => [FStr "n" (Some (e_name e)); FStr "d" (e_def e); FDt "dt" (p_dtype p); FZs "cnt" (p_extent p)]
   | KArray => named ++ [FDt "dt" (p_dtype p); FZs "ext" (p_extent p)] ++ tail
   | KFrame => named ++ [FCols "cols" (p_cols p); FZs "rows" (p_extent p)] ++ tail
-  | KTag => named ++ [FRaws "pos" (Some (p_tpos p)); FRaws "ext" (p_text p); FStrs "units" (p_units p);
+  | KTag => named ++ [FRaws "pos" (Some (p_tpos p)); FRaws "ext" (norm_empty (p_text p)); FStrs "units" (norm_empty (p_units p));
                       FRefs "refs" (l_refs l); FRefs "X" (kids s o KFeature)] ++ tail
-  | KMTag => named ++ [FRef "pos" (l_pos l); FRef "ext" (l_ext l); FStrs "units" (p_units p);
+  | KMTag => named ++ [FRef "pos" (l_pos l); FRef "ext" (l_ext l); FStrs "units" (norm_empty (p_units p));
                        FRefs "refs" (l_refs l); FRefs "X" (kids s o KFeature)] ++ tail
   | KGroup => named ++ [FRefs "ga" (l_garr l); FRefs "gd" (l_gfrm l); FRefs "gt" (l_gtag l); FRefs "gm" (l_gmtg l)] ++ tail
   | KSource => named ++ [FRef "meta" (l_meta l); FRefs "R" (kids s o KSource)]
